@@ -12,7 +12,12 @@ func init() {
 			c.Do("C10.a", "L4+L5 shard boundary comparators agree", 4, func() { clVisitorBoundary(c); clVisitorShardStart(c) })
 			c.Do("C10.b", "L6c errors collected and returned", 5, func() { clVisitorErrors(c) })
 			c.Do("C10.c", "L10 termination shape", 2, func() { clVisitorTermination(c) })
-			c.Do("C10.d", "L2 per-shard iterator pairing and filtering", 8, func() { clIteratorRefPairing(c); clCursorMovesFiltered(c) })
+			c.Do("C10.d", "L2 per-shard iterator pairing and filtering", 8, func() {
+				clIteratorRefPairing(c)
+				clCursorMovesFiltered(c)
+				clRefreshOnlyOnVisible(c)
+				clVisitorPivotCopies(c)
+			})
 		},
 	})
 }
